@@ -112,6 +112,9 @@ fn drive(bytes: &[u8], v: &mut Verdict) -> Result<(), String> {
             if k != out.len() as u64 {
                 return Err(format!("blob {bi}: returned Ok({k}) but wrote {} bytes", out.len()));
             }
+            if k != b.length {
+                return Err(format!("blob {bi}: returned Ok({k}) for a descriptor of {} bytes", b.length));
+            }
             if k > n as u64 {
                 return Err(format!("blob {bi}: returned {k} bytes from an input of {n} bytes"));
             }
